@@ -248,6 +248,20 @@ def cases(seed, tier):
             mode, nrec = r.choice(["flat", "flat", "readflat", "readflatgz"]), r.randint(1, 5)
         recs = [record(r, tier, small=(nrec > 2)) for _ in range(nrec)]
         yield mk(mode, r.random() < 0.5, mode.startswith("flat") or mode.startswith("readflat"), recs)
+    # two-digit (and one-digit) lengths after gaps of two and more blanks
+    for n in (7, 10, 20, 99):
+        for g in (1, 2, 17):
+            rec = record(r, tier, small=True, trap=0.0)
+            rec[5] = "6,%d,3,4,2,0" % g
+            rec[-1] = randword(r, "acgt", n)
+            yield mk("parse", True, False, [rec])
+    # files with one record of more than 64 KiB (first / in the middle), through ParseMulti and ParseFlat
+    for mode, fnl, pos in (("multi", True, 0), ("multi", False, 1), ("flat", True, 1), ("flat", False, 0), ("readmulti", True, 1)):
+        recs = [record(r, tier, small=True) for _ in range(3)]
+        big = record(r, tier, small=True)
+        big[-1] = randword(r, "acgt", r.randint(60000, 70000))
+        recs[pos] = big
+        yield mk(mode, fnl, mode.startswith("flat"), recs)
     # large sequences
     for i in range(3 if tier == "quick" else 40):
         yield mk(r.choice(["parse", "multi", "flat"]) if i else "parse", r.random() < 0.5, False, [record(r, tier, big=True)])
